@@ -151,6 +151,26 @@ func fqOps() map[string]opDef {
 				e, _ := time.Parse(time.RFC3339, m.expiry)
 				return fmt.Sprint(e.Before(t0))
 			}},
+		"TxFee": {name: "tx.EstimateFeesPaid(quote)",
+			run: func(w *world) string {
+				f, err := feeTx().EstimateFeesPaid(w.fq)
+				if err != nil {
+					return "err"
+				}
+				return fmt.Sprintf("%d+%d", f.StdFeePaid, f.DataFeePaid)
+			},
+			spec: func(m *model, _ map[string]*model) string {
+				sn, ok1 := m.fees["standard"]
+				dn, ok2 := m.fees["data"]
+				if !ok1 || !ok2 {
+					return "err"
+				}
+				var ss, sb, ds, db uint64
+				fmt.Sscanf(feeRate[sn], "%d/%d", &ss, &sb)
+				fmt.Sscanf(feeRate[dn], "%d/%d", &ds, &db)
+				sz, _ := feeTx().EstimateSizeWithTypes()
+				return fmt.Sprintf("%d+%d", sz.TotalStdBytes*ss/sb, sz.TotalDataBytes*ds/db)
+			}},
 		"Marshal": {name: "MarshalJSON()", racy: true,
 			run: func(w *world) string {
 				b, err := json.Marshal(w.fq)
@@ -187,6 +207,17 @@ func fqOps() map[string]opDef {
 				return "ok"
 			}},
 	}
+}
+
+// feeTx is a small unsigned transaction (one P2PKH input, a P2PKH and a data output) whose fee
+// is computed from the shared quote by the library's own fee code.
+func feeTx() *bt.Tx {
+	tx := bt.NewTx()
+	lock, _ := bscript.NewP2PKHFromPubKeyHash(make([]byte, 20))
+	_ = tx.FromUTXOs(&bt.UTXO{TxID: make([]byte, 32), Vout: 0, Satoshis: 10000, LockingScript: lock})
+	tx.AddOutput(&bt.Output{Satoshis: 100, LockingScript: lock})
+	_ = tx.AddOpReturnOutput(make([]byte, 120))
+	return tx
 }
 
 var feeRate = map[string]string{"D1": "5/100", "D2": "5/100", "F1": "1/1", "F2": "2/3", "F3": "7/9", "J": "9/10"}
@@ -701,7 +732,7 @@ func keys(fs []rep.Finding) []string {
 
 func scenarios(thorough bool) []scenario {
 	var out []scenario
-	fq := []string{"FeeStd", "FeeData", "AddStd", "AddStd2", "AddData", "Expiry", "UpdExp", "UpdExpPast", "Expired", "Marshal", "Unmarshal"}
+	fq := []string{"FeeStd", "FeeData", "AddStd", "AddStd2", "AddData", "Expiry", "UpdExp", "UpdExpPast", "Expired", "Marshal", "Unmarshal", "TxFee"}
 	// every unordered pair on two threads
 	for i := 0; i < len(fq); i++ {
 		for j := i; j < len(fq); j++ {
@@ -760,6 +791,12 @@ func main() {
 		os.Exit(2)
 	}
 	switch os.Args[1] {
+	case "watch":
+		watchMain(os.Args[2:])
+		return
+	case "watch-replay":
+		watchReplay(os.Args[2])
+		return
 	case "replay":
 		b, err := os.ReadFile(os.Args[2])
 		if err != nil {
@@ -837,7 +874,7 @@ func main() {
 	r.Note("feequote_scenarios_with_a_single_outcome", singleOutcome)
 	r.Sample("schedule", map[string]any{"scenario": scs[13], "schedule": []int{0, 1, 0}})
 	r.Sample("schedule", map[string]any{"scenario": scs[len(scs)-2], "note": "engine: Execute has no lock operations; interleavings reduce to start orders, shared-state writes are caught by the happens-before monitor"})
-	os.Exit(r.Finish("stateless schedule exploration of the real fees.go / interpreter code (instrumented from the working tree at check time) under a cooperative scheduler: scheduling points before every Lock/RLock (a write lock first announces itself, modelling writer preference), at thread start and end; DFS over choice prefixes with iterative preemption bound 0,1,2 and then unbounded, every scenario explored to completion. Scenarios: every unordered pair of the 11 FeeQuote operations on 2 threads, triples of the 6 core operations on 3 threads, 2x2 combinations, every pair (thorough: triple) of 10 FeeQuotes operations incl. operations on the quote it hands out, and 2-3 threads calling Execute on one engine with distinct transactions (P2PKH spends, script-only runs, post-genesis conditionals, calls that share one option value). Oracles on every schedule: vector-clock happens-before race detection over EVERY access the type-checked instrumentation finds in packages bt, bscript and bscript/interpreter (struct fields reached through a pointer, package-level variables, locals aliasing a map/slice field) plus the harness's own reads of the *Fee values it is handed, deadlock, panics, linearizability against a plain-map sequential model (brute force over orders consistent with real time), every read returns a stored Fee/quote object reading as it was stored and no stored Fee object is modified in place, concurrent verdicts = sequential verdicts; recorded schedules replay deterministically (each finding is re-executed before it is reported)"))
+	os.Exit(r.Finish("stateless schedule exploration of the real fees.go / interpreter code (instrumented from the working tree at check time) under a cooperative scheduler: scheduling points before every Lock/RLock (a write lock first announces itself, modelling writer preference), at thread start and end; DFS over choice prefixes with iterative preemption bound 0,1,2 and then unbounded, every scenario explored to completion. Scenarios: every unordered pair of the 12 FeeQuote operations (incl. a transaction's fee being computed from the shared quote by the library) on 2 threads, triples of the 6 core operations on 3 threads, 2x2 combinations, every pair (thorough: triple) of 10 FeeQuotes operations incl. operations on the quote it hands out, and 2-3 threads calling Execute on one engine with distinct transactions (P2PKH spends, script-only runs, post-genesis conditionals, calls that share one option value). Oracles on every schedule: vector-clock happens-before race detection over EVERY access the type-checked instrumentation finds in packages bt, bscript and bscript/interpreter (struct fields reached through a pointer, package-level variables, locals aliasing a map/slice field) plus the harness's own reads of the *Fee values it is handed, deadlock, panics, linearizability against a plain-map sequential model (brute force over orders consistent with real time), every read returns a stored Fee/quote object reading as it was stored and no stored Fee object is modified in place, concurrent verdicts = sequential verdicts; recorded schedules replay deterministically (each finding is re-executed before it is reported)"))
 }
 
 // freeRun executes the scenario bodies without the scheduler (real mutexes, real
